@@ -158,6 +158,21 @@ class SymContext(object):
                 out.append(f)
         return out
 
+    def facts_with(self, decl_name):
+        """witness/axiom facts of this path that mention the function symbol `decl_name`"""
+        import z3
+        out = []
+        for f in self.ctx.facts:
+            todo, hit = [f], False
+            while todo and not hit:
+                x = todo.pop()
+                if z3.is_app(x) and x.decl().name() == decl_name:
+                    hit = True
+                todo.extend(x.children())
+            if hit:
+                out.append(f)
+        return out
+
     def fact(self, cond):
         """a true mathematical fact used as a hypothesis (listed in the evidence)"""
         self.ctx.notes.append(('axiom', str(cond)[:200]))
@@ -321,6 +336,27 @@ class SymContext(object):
     def hash(self, obj):
         return self.ip.call(self.ip.builtins['hash'], [obj], {})
 
+    def ddt(self, value, var):
+        """d(value)/d(var) of an executed term (differential contracts)"""
+        from . import diff
+        return diff.ddt(value, var)
+
+    def raw_object(self, qual, **attrs):
+        """an instance of a repo class in an ARBITRARY field state (no constructor run)"""
+        o = self._I.Obj(self.ip.get_global(qual))
+        o.attrs.update(attrs)
+        return o
+
+    def stop_at(self, qual, local_name, callback):
+        """run `callback(value, locals)` at the assignment `local_name = ...` inside `qual` and
+        cut the path there (what follows is not needed by the clause at hand)"""
+        from .explore import PathAbort
+
+        def hook(v, env):
+            callback(v, env.vars)
+            raise PathAbort("stop_at %s.%s" % (qual, local_name))
+        self.ip.cuts[(qual, local_name)] = hook
+
     def set_global(self, qual, value):
         mod, _, name = qual.partition('.')
         self.ip.module(mod).vars[name] = value
@@ -470,6 +506,9 @@ class ConcContext(object):
     def witness_facts(self, *values):
         return []
 
+    def facts_with(self, decl_name):
+        return []
+
     def assumed(self, cond):
         self.assume(cond)
         return cond
@@ -564,6 +603,13 @@ class ConcContext(object):
 
     def hash(self, obj):
         return hash(obj)
+
+    def raw_object(self, qual, **attrs):
+        cls = self.glob(qual)
+        o = object.__new__(cls)
+        for k, v in attrs.items():
+            setattr(o, k, v)
+        return o
 
     def set_global(self, qual, value):
         import importlib
